@@ -1,14 +1,227 @@
 /-
-C51 — Bounded LRU/TTL map (ClpMap) behaves like its specification.  (first version: arithmetic facts only)
+C51 — Bounded LRU/TTL map (`ClpMap`, src/base/ClpMap.h) behaves like its specification.
+
+"For any sequence of adds, gets, deletes, capacity changes and clock advances, the map returns exactly the values a
+reference LRU/TTL/capacity model returns. Its accounted memory never exceeds the capacity, and only
+least-recently-used entries are purged to make room."
+
+Model: `SquidModel.ClpMap.Model` (node list with identities + iterator index + `uint64_t` counters, asserts / dangling
+iterators / a non-terminating trim loop as explicit faults).  Reference: `SquidModel.ClpMap.Spec` (`Ref`: a recency-ordered
+entry list with unbounded arithmetic; `Stamped`: the same with ghost last-use stamps).  Lemmas: Arith, ListLemmas, Inv,
+Refine, History, Lru.  All statements are for every history (no length bound) and every argument in the range of its
+C++ type; the clock is assumed to be a non-negative `time_t` (see `negative_clock_never_expires` for what happens otherwise).
 -/
-import SquidModel.ClpMap.Arith
+import SquidModel.ClpMap.History
+import SquidModel.ClpMap.Lru
 
 namespace SquidModel.C51
 open SquidModel.ClpMap SquidModel.Gen.ClpMapConsts
 
-/-- `MemoryCountedFor` (a chain of four overflow-checked `uint64_t` additions) is the exact sum when it fits and nothing otherwise. -/
+/-- **The map returns exactly what the reference LRU/TTL/capacity map returns.**  From either constructor, for every
+history of valid calls, the model returns normally from every call (no assert fires, no iterator dangles, no
+`uint64_t` operation wraps, `trim()` terminates) and the sequence of observations (call result, `memoryUsed()`,
+`memLimit()`, `entries()`, full traversal) is the reference map's. -/
+theorem run_refines (capacity : Nat) (ttl : Option Int) (now : Int) (ops : List Op)
+    (hcap : capacity ≤ u64Max) (httl : ∀ d, ttl = some d → 0 ≤ d) (hclock : ClockOk now) (hops : ∀ op ∈ ops, op.Valid) :
+    ∃ s, init capacity ttl now = .ok s ∧ run s now ops = .ok (Ref.run (Ref.init capacity ttl) now ops) := by
+  obtain ⟨s, hs, hR⟩ := init_rel now hcap httl
+  exact ⟨s, hs, (run_sim ops hR hclock hops).1⟩
+
+/-- No fault is reachable: whatever the history, the run does not end in an assertion failure, a dangling iterator or
+a diverging trim loop. -/
+theorem never_faults (capacity : Nat) (ttl : Option Int) (now : Int) (ops : List Op)
+    (hcap : capacity ≤ u64Max) (httl : ∀ d, ttl = some d → 0 ≤ d) (hclock : ClockOk now) (hops : ∀ op ∈ ops, op.Valid)
+    (s : State) (hs : init capacity ttl now = .ok s) (f : Fault) : run s now ops ≠ .error f := by
+  obtain ⟨s', hs', hr⟩ := run_refines capacity ttl now ops hcap httl hclock hops
+  rw [hs] at hs'; cases hs'
+  rw [hr]; intro h; cases h
+
+/-- **Accounted memory never exceeds the capacity** (and is exactly the sum of the accounted entry sizes, each of
+them positive; `entries()` is the traversal length; there is one entry per key), after every call of every history. -/
+theorem mem_le_limit (capacity : Nat) (ttl : Option Int) (now : Int) (ops : List Op)
+    (hcap : capacity ≤ u64Max) (httl : ∀ d, ttl = some d → 0 ≤ d) (hclock : ClockOk now) (hops : ∀ op ∈ ops, op.Valid)
+    (s : State) (hs : init capacity ttl now = .ok s) (obs : List Obs) (hrun : run s now ops = .ok obs) :
+    ∀ o ∈ obs, o.used ≤ o.limit ∧ o.used = total o.items ∧ (o.items.map (·.key)).Nodup ∧ o.count = o.items.length ∧
+      ∀ e ∈ o.items, 0 < e.memCounted := by
+  obtain ⟨s', hs', hR⟩ := init_rel now hcap httl
+  rw [hs] at hs'; cases hs'
+  obtain ⟨h1, h2⟩ := run_sim ops hR hclock hops
+  rw [hrun] at h1; cases h1
+  intro o ho
+  have := h2 o ho
+  exact ⟨this.le, this.sum, this.keys, this.count, this.pos⟩
+
+/-- **Only least-recently-used entries are purged to make room** (model level): on any state satisfying the invariant,
+`trim(wantSpace)` returns normally, keeps a prefix of the recency-ordered entry list (so the victims are exactly a
+suffix = the least recently used entries), frees enough room, and purges no more than necessary: the most recently used
+victim would not have fit next to the survivors. -/
+theorem trim_purges_lru_suffix (s : State) (hi : Inv s) (now : Int) (want : Nat) (hw : want ≤ s.memLimit) :
+    ∃ s' victims, trim s now want = .ok s' ∧ Inv s' ∧ ents s = ents s' ++ victims ∧
+      s'.memUsed + want ≤ s'.memLimit ∧ s'.memLimit = s.memLimit ∧
+      (∀ v t, victims = v :: t → s'.memLimit < s'.memUsed + v.memCounted + want) := by
+  obtain ⟨s', ht, hinv, hents, hfr⟩ := trim_spec hi now hw
+  obtain ⟨t, hpre⟩ := fitPrefix_prefix (ents s) (s.memLimit - want)
+  refine ⟨s', t, ht, hinv, by rw [hents]; exact hpre, ?_, hfr.1, ?_⟩
+  · have := fitPrefix_total_le (ents s) (s.memLimit - want)
+    rw [← hents, ← hinv.used] at this
+    rw [hfr.1]; omega
+  · intro v t' hv
+    subst hv
+    have := fitPrefix_maximal (ents s) (s.memLimit - want) v t' hpre
+    rw [← hents, ← hinv.used] at this
+    rw [hfr.1]; omega
+
+/-- The ghost last-use stamps are faithful: erasing them from the instrumented reference gives the reference. -/
+theorem stamps_erase (capacity : Nat) (ttl : Option Int) (now : Int) (ops : List Op) :
+    (Stamped.after (Stamped.init capacity ttl) now ops).1.erase = (Ref.after (Ref.init capacity ttl) now ops).1 :=
+  (Stamped.erase_after ops (Stamped.init capacity ttl) now).1
+
+/-- In every reachable state the traversal order is the recency order: stamps strictly decrease along the list. -/
+theorem traversal_is_recency_order (capacity : Nat) (ttl : Option Int) (now : Int) (ops : List Op) :
+    (Stamped.after (Stamped.init capacity ttl) now ops).1.items.Pairwise (fun a b => b.stamp < a.stamp) :=
+  (Stamped.sinv_after ops now (Stamped.sinv_init capacity ttl)).sorted
+
+/-- **Only least-recently-used entries are purged to make room** (with last-use stamps): when an `add` is accepted in a
+reachable state, the entries it purges (besides the one stored under the same key, which it replaces) were all used
+less recently than every entry it keeps, and the most recently used victim would not have fit. -/
+theorem add_purges_least_recent (capacity : Nat) (ttl0 : Option Int) (now0 : Int) (ops : List Op)
+    (now : Int) (k klen : Nat) (v : Int) (vsz : Nat) (ttl : Int) :
+    let s := (Stamped.after (Stamped.init capacity ttl0) now0 ops).1
+    (s.add now k klen v vsz ttl).2 = true →
+    ∃ kept victims, (s.add now k klen v vsz ttl).1.items =
+        { e := ⟨k, v, expiryOf now ttl, exactSize klen vsz⟩, stamp := s.tick } :: kept ∧
+      Stamped.sremove s.items k = kept ++ victims ∧
+      (∀ a ∈ kept, ∀ b ∈ victims, b.stamp < a.stamp) ∧
+      (∀ w t, victims = w :: t → s.limit < exactSize klen vsz + total (kept.map (·.e)) + w.e.memCounted) := by
+  intro s hacc
+  have hs : Stamped.SInv s := Stamped.sinv_after ops now0 (Stamped.sinv_init capacity ttl0)
+  unfold Stamped.add at hacc ⊢
+  simp only at hacc ⊢
+  by_cases h : ttl < 0 ∨ exactSize klen vsz > u64Max ∨ exactSize klen vsz > s.limit
+  · simp [h] at hacc
+  · simp only [h, if_false]
+    obtain ⟨t, ht⟩ := Stamped.sfit_prefix (Stamped.sremove s.items k) (s.limit - exactSize klen vsz)
+    have hsorted : (Stamped.sremove s.items k).Pairwise (fun a b => b.stamp < a.stamp) :=
+      List.Pairwise.sublist (Stamped.sremove_sublist _ _) hs.sorted
+    refine ⟨_, t, rfl, ht, Stamped.sfit_victims_older hsorted _ ht, ?_⟩
+    intro w t' hw
+    subst hw
+    have := Stamped.sfit_maximal _ _ w t' ht
+    omega
+
+/-- The same for a capacity reduction: `setMemLimit` purges the least recently used entries only, and as few as possible. -/
+theorem setLimit_purges_least_recent (capacity : Nat) (ttl0 : Option Int) (now0 : Int) (ops : List Op) (n : Nat) :
+    let s := (Stamped.after (Stamped.init capacity ttl0) now0 ops).1
+    ∃ victims, s.items = (s.setLimit n).items ++ victims ∧
+      (∀ a ∈ (s.setLimit n).items, ∀ b ∈ victims, b.stamp < a.stamp) ∧
+      (∀ w t, victims = w :: t → n < total ((s.setLimit n).items.map (·.e)) + w.e.memCounted) := by
+  intro s
+  have hs : Stamped.SInv s := Stamped.sinv_after ops now0 (Stamped.sinv_init capacity ttl0)
+  obtain ⟨t, ht⟩ := Stamped.sfit_prefix s.items n
+  refine ⟨t, ht, Stamped.sfit_victims_older hs.sorted _ ht, ?_⟩
+  intro w t' hw
+  subst hw
+  exact Stamped.sfit_maximal _ _ w t' ht
+
+/-- Reference-level meaning of a hit: an accepted `add` is returned by `get` under the same key until its TTL has passed … -/
+theorem get_after_add (r : Ref) (now now' : Int) (k klen : Nat) (v : Int) (vsz : Nat) (ttl : Int)
+    (hacc : (r.add now k klen v vsz ttl).2 = true) (hfresh : now' ≤ expiryOf now ttl) :
+    ((r.add now k klen v vsz ttl).1.get now' k).2 = some v := by
+  unfold Ref.add at hacc ⊢
+  simp only at hacc ⊢
+  by_cases h : ttl < 0 ∨ exactSize klen vsz > u64Max ∨ exactSize klen vsz > r.limit
+  · simp [h] at hacc
+  · simp only [h, if_false]
+    unfold Ref.get
+    simp only [lookup_cons, if_true]
+    have : ¬ expiryOf now ttl < now' := by omega
+    simp only [this, if_false]
+
+/-- … and is hidden (and dropped) afterwards. -/
+theorem get_after_expiry (r : Ref) (now now' : Int) (k klen : Nat) (v : Int) (vsz : Nat) (ttl : Int)
+    (hacc : (r.add now k klen v vsz ttl).2 = true) (hstale : expiryOf now ttl < now') :
+    ((r.add now k klen v vsz ttl).1.get now' k).2 = none ∧
+    lookup ((r.add now k klen v vsz ttl).1.get now' k).1.items k = none := by
+  unfold Ref.add at hacc ⊢
+  simp only at hacc ⊢
+  by_cases h : ttl < 0 ∨ exactSize klen vsz > u64Max ∨ exactSize klen vsz > r.limit
+  · simp [h] at hacc
+  · simp only [h, if_false]
+    unfold Ref.get
+    simp only [lookup_cons, if_true, hstale]
+    exact ⟨trivial, lookup_remove_self _ _⟩
+
+/-- A refused `add` (negative TTL, or a size that cannot be accounted or does not fit the capacity) still discards the
+value stored under the key: a stale value never outlives an attempt to replace it. -/
+theorem rejected_add_discards (r : Ref) (now now' : Int) (k klen : Nat) (v : Int) (vsz : Nat) (ttl : Int)
+    (hrej : (r.add now k klen v vsz ttl).2 = false) : ((r.add now k klen v vsz ttl).1.get now' k).2 = none := by
+  unfold Ref.add at hrej ⊢
+  simp only at hrej ⊢
+  by_cases h : ttl < 0 ∨ exactSize klen vsz > u64Max ∨ exactSize klen vsz > r.limit
+  · simp only [h, if_true]
+    unfold Ref.get
+    simp only [lookup_remove_self]
+  · simp [h] at hrej
+
+/-- `MemoryCountedFor` (a chain of four overflow-checked `uint64_t` additions) is the exact sum
+key length + sizeof(Entry) + value size + sizeof(index item) when that fits 64 bits, and nothing otherwise. -/
 theorem memory_counted_exact (klen vsz : Nat) (hk : klen ≤ u64Max) (hv : vsz ≤ u64Max) :
     memoryCountedFor klen vsz = if exactSize klen vsz ≤ u64Max then some (exactSize klen vsz) else none :=
   memoryCountedFor_eq hk hv
+
+/-- The saturation of the expiry instant at `time_t` max is invisible: for every clock value a `time_t` can hold, the
+entry is stale exactly when the exact (unbounded) instant `now + ttl` has passed. -/
+theorem expiry_saturation_invisible (now ttl t : Int) (hn : ClockOk now) (ht : 0 ≤ ttl) (ht' : t ≤ timeMax) :
+    expiresFor now ttl < t ↔ now + ttl < t :=
+  expired_iff_exact hn.1 hn.2 ht ht'
+
+/-- Outside the assumed domain: with a negative clock `NaturalSum` refuses to add and the entry gets the maximal expiry
+instant, i.e. it never expires whatever its TTL. -/
+theorem negative_clock_never_expires (now ttl t : Int) (hn : now < 0) (ht : t ≤ timeMax) :
+    ¬ (expiresFor now ttl < t) := by
+  rw [expiresFor_negative_clock hn]; omega
+
+/-! ### non-vacuity -/
+
+/-- what a caller sees of a run, as a decidable value -/
+def results (capacity : Nat) (ttl : Option Int) (now : Int) (ops : List Op) : Option (List (Res × Nat × List Nat)) :=
+  match init capacity ttl now with
+  | .error _ => none
+  | .ok s =>
+    match run s now ops with
+    | .error _ => none
+    | .ok os => some (os.map fun o => (o.res, o.used, o.items.map (·.key)))
+
+/-- three entries of 80 bytes in a 160-byte map: the third add purges the least recently used one, which is key 2
+because key 1 was read in between; after the TTL has passed key 1 is gone as well. -/
+example : results 160 none 5
+    [.add 1 0 11 8 10, .add 2 0 22 8 10, .get 1, .add 3 0 33 8 1, .get 2, .get 1, .setClock 7, .get 3, .setLimit 0] =
+    some [(.added true, 80, [1]), (.added true, 160, [2, 1]), (.got (some 11), 160, [1, 2]), (.added true, 160, [3, 1]),
+          (.got none, 160, [3, 1]), (.got (some 11), 160, [1, 3]), (.none, 160, [1, 3]), (.got none, 80, [1]),
+          (.none, 0, [])] := by decide
+
+/-- the hypotheses of `run_refines` are satisfiable (and the reference run of that history is the one above) -/
+example : (160 : Nat) ≤ u64Max ∧ ClockOk 5 ∧ ∀ op ∈ [Op.add 1 0 11 8 10, .get 1, .setClock 7, .setLimit 0], op.Valid := by
+  refine ⟨by decide, ⟨by decide, by decide⟩, ?_⟩
+  intro op h
+  simp only [List.mem_cons, List.mem_nil_iff, or_false] at h
+  rcases h with rfl | rfl | rfl | rfl
+  · exact ⟨by decide, by decide⟩
+  · trivial
+  · exact ⟨by decide, by decide⟩
+  · show (0 : Nat) ≤ u64Max; decide
+
+/-- sizes at the 64-bit boundary: the largest accountable entry is accepted by a map of maximal capacity, one more byte is not -/
+example : results u64Max none 0 [.add 1 (u64Max - 72) 1 0 5, .add 2 (u64Max - 71) 2 0 5, .add 3 u64Max 3 u64Max 5] =
+    some [(.added true, u64Max, [1]), (.added false, u64Max, [1]), (.added false, u64Max, [1])] := by decide
+
+/-- a fault is a possible outcome of the model (the theorems are not vacuous): a state whose index points at a node that
+is gone makes `get` report the dangling iterator -/
+example : get { entries := [], index := [(1, 7)], nextId := 8, memLimit := 100, memUsed := 0, defaultTtl := 0 } 0 1 =
+    .error .dangling := rfl
+
+/-- and a negative clock does make an entry immortal in the model -/
+example : results 1000 none (-5) [.add 1 0 11 0 1, .setClock 1000, .get 1] =
+    some [(.added true, 72, [1]), (.none, 72, [1]), (.got (some 11), 72, [1])] := by decide
 
 end SquidModel.C51
